@@ -96,11 +96,9 @@ fn md5_tap(_state: &mut [u32; 4], blocks: &[[u8; 64]]) {
 
 /// the byte stream fed to the digest is exactly data[begin..end] with the excluded window zeroed
 /// (begin/end concrete per harness - a symbolic read length makes the digest's block buffering explode)
-fn digest_coverage<const BEGIN: u64, const END: u64>() {
+fn digest_coverage<const BEGIN: u64, const END: u64, const XB: u64, const XE: u64>() {
     let data: [u8; 24] = kani::any();
-    let xb: u64 = kani::any();
-    let xe: u64 = kani::any();
-    kani::assume(xb <= xe && xe <= 24);
+    let (xb, xe) = (XB, XE);
     let info = SignatureInfo::new_weak(BEGIN, END - BEGIN, xb, xe - xb, Vec::new());
     assert!(info.begin_mpq_data == BEGIN && info.end_mpq_data == END && info.begin_exclude == xb && info.end_exclude == xe);
     let src = Src::<24>::new(data, 24);
@@ -115,23 +113,78 @@ fn digest_coverage<const BEGIN: u64, const END: u64>() {
     kani::assume(i < n);
     let pos = BEGIN as usize + i;
     let want = if (pos as u64) >= xb && (pos as u64) < xe { 0 } else { data[pos] };
-    kani::cover!(xb == 8 && xe == 16);
+    kani::cover!(i == n - 1);
     assert!(blk[i] == want, "digest input differs from the signed range with the signature window zeroed");
     assert!(blk[n] == 0x80, "bytes beyond the signed range are fed to the digest");
     let bits = u64::from_le_bytes([blk[56], blk[57], blk[58], blk[59], blk[60], blk[61], blk[62], blk[63]]);
     assert!(bits == 8 * n as u64, "digest length differs from the length of the signed range");
     std::mem::forget((info, r));
 }
+macro_rules! digest_harness {
+    ($name:ident, $b:expr, $e:expr, $xb:expr, $xe:expr) => {
+        #[kani::proof]
+        #[kani::unwind(70)]
+        #[kani::stub(std::fmt::format, vio::fmt_stub)]
+        #[kani::stub(md5::compress::compress, md5_tap)]
+        fn $name() { digest_coverage::<$b, $e, $xb, $xe>() }
+    };
+}
+// (signed range, signature window): window inside, at the start, at the end, empty, reaching outside the range
+digest_harness!(c10b_digest_window_inside, 0, 24, 8, 16);
+digest_harness!(c10b_digest_window_at_start, 0, 24, 0, 4);
+digest_harness!(c10b_digest_window_at_end, 0, 24, 20, 24);
+digest_harness!(c10b_digest_window_empty, 0, 24, 12, 12);
+digest_harness!(c10b_digest_inner_range_window_overlaps, 4, 20, 2, 9);
+
+
+// ---- the signature window straddling a 64 KiB digest-unit boundary
+static mut BIG_TAP: [[u8; 64]; 3] = [[0; 64]; 3];
+static mut BIG_CALLS: usize = 0;
+static mut BIG_BLOCKS: usize = 0;
+fn md5_tap_big(_state: &mut [u32; 4], blocks: &[[u8; 64]]) {
+    unsafe {
+        if BIG_CALLS == 0 && blocks.len() == 1024 {
+            BIG_TAP[0] = blocks[1023];
+        } else if BIG_CALLS == 1 && blocks.len() == 2 {
+            BIG_TAP[1] = blocks[0];
+            BIG_TAP[2] = blocks[1];
+        }
+        BIG_CALLS += 1;
+        BIG_BLOCKS += blocks.len();
+    }
+}
+
+/// 65664 signed bytes, signature window [65500, 65572) crossing the 64 KiB unit boundary: the digest is fed
+/// the data with exactly the window zeroed - in particular the bytes right behind the window stay covered
 #[kani::proof]
-#[kani::unwind(70)]
+#[kani::unwind(80)]
 #[kani::stub(std::fmt::format, vio::fmt_stub)]
-#[kani::stub(md5::compress::compress, md5_tap)]
-fn c10b_weak_digest_covers_signed_range() { digest_coverage::<0, 24>() }
-#[kani::proof]
-#[kani::unwind(70)]
-#[kani::stub(std::fmt::format, vio::fmt_stub)]
-#[kani::stub(md5::compress::compress, md5_tap)]
-fn c10b_weak_digest_covers_inner_range() { digest_coverage::<4, 20>() }
+#[kani::stub(md5::compress::compress, md5_tap_big)]
+fn c10b_digest_window_straddles_unit_boundary() {
+    const N: usize = 65664;
+    const LO: usize = 65472; // start of the last block of unit 1
+    let mut data = [0x33u8; N];
+    let sym: [u8; 192] = kani::any();
+    let mut k = 0;
+    while k < 192 {
+        data[LO + k] = sym[k];
+        k += 1;
+    }
+    let info = SignatureInfo::new_weak(0, N as u64, 65500, 72, Vec::new());
+    let src = Src::<N>::new(data, N);
+    unsafe { BIG_CALLS = 0; BIG_BLOCKS = 0; }
+    let r = calculate_mpq_hash_md5(src, &info);
+    assert!(r.is_ok());
+    assert!(unsafe { BIG_BLOCKS } == 1024 + 2 + 1, "digest was not fed 65664 bytes plus padding");
+    let i: usize = kani::any();
+    kani::assume(i < 192);
+    let pos = LO + i;
+    let got = unsafe { BIG_TAP[i / 64][i % 64] };
+    let want = if pos >= 65500 && pos < 65572 { 0 } else { sym[i] };
+    kani::cover!(pos == 65572, "first byte behind the signature window");
+    assert!(got == want, "digest input differs from the signed range with the signature window zeroed (window crossing a 64 KiB unit)");
+    std::mem::forget((info, r));
+}
 
 #[kani::proof]
 #[kani::unwind(70)]
